@@ -786,6 +786,10 @@ class NPMixin:
                     yield st1, b.fields[n.attr]; continue
                 key = self.method_key(b, n.attr)
                 if key:
+                    fdef = self.src.func(key)
+                    if any(isinstance(d_, ast.Name) and d_.id == 'property' for d_ in fdef.decorator_list):
+                        yield from self.call_contract(key, [base], {}, st1, n)      # a property: reading it calls the method
+                        continue
                     yield st1, Func(key, bound=base); continue
                 raise Unsupported('record %s has no attribute %s' % (b.cls, n.attr))
             if isinstance(b, (Func, Opaque, Str, Tup, MaskedSel, Metric, RArr)) or isinstance(b, tuple) or type(b).__name__ == 'ConcatR':
@@ -1008,6 +1012,8 @@ class NPMixin:
         c = self.registry[key]
         names = self.src.param_names(key)
         fn = self.src.func(key)
+        if key.endswith('.__init__') and isinstance(getattr(node, 'func', None), ast.Name) and names and names[0] == 'self':
+            names = names[1:]                 # ClassName(args): the new object is the contract's result()
         args = {}
         for nm, v in zip(names, argv):
             args[nm] = v
@@ -1035,7 +1041,7 @@ class NPMixin:
         ghost, gax = c.ghost(L, A) if hasattr(c, 'ghost') else (None, [])
         short = key.split('::')[1]
         for name, p in c.requires(L, A, ghost):
-            self.emit(self.site('call', node.func), st, p, clause='pre:' + name)
+            self.emit(self.site('call', getattr(node, 'func', node)), st, p, clause='pre:' + name)
         # exceptional exits of the callee propagate (contracts say when)
         allowed = c.raises(L, A, ghost) if hasattr(c, 'raises') else {}
         st = st.copy()
